@@ -133,3 +133,83 @@ func Fdatasync(fd int) error {
 func Renameat2(olddirfd int, oldpath string, newdirfd int, newpath string, flags uint) error {
 	return unix.Renameat2(olddirfd, oldpath, newdirfd, newpath, flags)
 }
+
+// ---- further calls a (changed) writer may use: each is a scheduling point, crash-image point and fault point ----
+
+const (
+	O_RDONLY      = unix.O_RDONLY
+	O_RDWR        = unix.O_RDWR
+	O_CREAT       = unix.O_CREAT
+	O_EXCL        = unix.O_EXCL
+	O_TRUNC       = unix.O_TRUNC
+	O_APPEND      = unix.O_APPEND
+	O_SYNC        = unix.O_SYNC
+	O_DIRECTORY   = unix.O_DIRECTORY
+	AT_REMOVEDIR  = unix.AT_REMOVEDIR
+	AT_EMPTY_PATH = unix.AT_EMPTY_PATH
+	EINTR         = unix.EINTR
+	EAGAIN        = unix.EAGAIN
+	EINVAL        = unix.EINVAL
+	EOPNOTSUPP    = unix.EOPNOTSUPP
+	EXDEV         = unix.EXDEV
+	EISDIR        = unix.EISDIR
+	ENOTDIR       = unix.ENOTDIR
+)
+
+type Stat_t = unix.Stat_t
+
+func wrap(name string, f func() error) error {
+	if e := pre(name); e != 0 {
+		return e
+	}
+	err := f()
+	post(name)
+	return err
+}
+
+func Unlink(path string) error { return wrap("Unlink", func() error { return unix.Unlink(path) }) }
+func Unlinkat(dirfd int, path string, flags int) error {
+	return wrap("Unlinkat", func() error { return unix.Unlinkat(dirfd, path, flags) })
+}
+func Rename(from, to string) error {
+	return wrap("Rename", func() error { return unix.Rename(from, to) })
+}
+func Renameat(olddirfd int, oldpath string, newdirfd int, newpath string) error {
+	return wrap("Renameat", func() error { return unix.Renameat(olddirfd, oldpath, newdirfd, newpath) })
+}
+func Link(oldpath, newpath string) error {
+	return wrap("Link", func() error { return unix.Link(oldpath, newpath) })
+}
+func Symlink(oldpath, newpath string) error {
+	return wrap("Symlink", func() error { return unix.Symlink(oldpath, newpath) })
+}
+func Fsync(fd int) error { return wrap("Fsync", func() error { return unix.Fsync(fd) }) }
+func Ftruncate(fd int, length int64) error {
+	return wrap("Ftruncate", func() error { return unix.Ftruncate(fd, length) })
+}
+func Mkdir(path string, mode uint32) error {
+	return wrap("Mkdir", func() error { return unix.Mkdir(path, mode) })
+}
+func Fstat(fd int, st *Stat_t) error                       { return unix.Fstat(fd, st) }
+func Stat(path string, st *Stat_t) error                   { return unix.Stat(path, st) }
+func Seek(fd int, offset int64, whence int) (int64, error) { return unix.Seek(fd, offset, whence) }
+func Pread(fd int, p []byte, offset int64) (int, error)    { return unix.Pread(fd, p, offset) }
+func Pwrite(fd int, p []byte, offset int64) (int, error) {
+	if TornHook != nil {
+		TornHook("Pwrite", fd, p)
+	}
+	if e := pre("Pwrite"); e != 0 {
+		return 0, e
+	}
+	n, err := unix.Pwrite(fd, p, offset)
+	post("Pwrite")
+	return n, err
+}
+func Openat(dirfd int, path string, flags int, mode uint32) (int, error) {
+	if e := pre("Openat"); e != 0 {
+		return -1, e
+	}
+	fd, err := unix.Openat(dirfd, path, flags, mode)
+	post("Openat")
+	return fd, err
+}
